@@ -12,12 +12,19 @@ import (
 
 // handleCEA handles Capabilities-Exchange-Answer messages.
 func handleCEA(sm *StateMachine, errc chan error) diam.HandlerFunc {
+	var done bool // handlers of a connection run one at a time
 	return func(c diam.Conn, m *diam.Message) {
+		if done {
+			// The handshake is over, ignore further or duplicate CEAs.
+			return
+		}
 		cea := new(smparser.CEA)
 		if err := cea.Parse(m, smparser.Client); err != nil {
+			done = true
 			errc <- err
 			return
 		}
+		done = true
 		meta := smpeer.FromCEA(cea)
 		c.SetContext(smpeer.NewContext(c.Context(), meta))
 		// Notify about peer passing the handshake.
